@@ -2,7 +2,7 @@
    rd = the direct reading of the source expression (interpretation S1, DESIGN.md section 7); T toks t = the token-level
    expression the builder made denotes the tree t; denotes t fe = same Boolean value under every assignment, same keys. *)
 From Ahb Require Import Model.Prelude Model.Grammar Gen.Gen_logic Gen.Gen_grammar Model.Logic Model.Lex Model.EvalRC Model.EvalFC Model.Spec
-  Proofs.C04_eval Proofs.C08_fc Proofs.C07_fc Proofs.C07_parse.
+  Proofs.C04_eval Proofs.C08_fc Proofs.C07_fc Proofs.C07_parse Proofs.C01_lexprint Proofs.C07_text.
 
 Theorem C07_meaning : forall a rho e n, dom e = true -> valid e = true -> env_ok a rho e -> eval_rc rho e = Ok n ->
   match rd a e with
@@ -31,3 +31,15 @@ Theorem C07_unknown_never_binding : forall a x k, fc_leaf x = false -> sem a x <
   rd a (EBin BThen x (EAtom k)) = None.
 Proof. exact unknown_never_binding. Qed.
 Print Assumptions C07_unknown_never_binding.
+
+(* at text level: the reported expression STRING (EvalRC.render toks, compared character by character with ahbicht's string by the
+   correspondence) is accepted by the parser model and parses, modulo same-operator runs, to the tree that denotes the reading.
+   digit_key: the keys are non-empty ASCII digit strings, which is all the lexer ever produces *)
+Theorem C07_text : forall a rho e n, dom e = true -> valid e = true -> env_ok a rho e -> eval_rc rho e = Ok n ->
+  Forall digit_key (keys_of e) ->
+  match rd a e with
+  | None => r_fcx (rc_result n) = None
+  | Some fe => exists toks t, r_fcx (rc_result n) = Some toks /\ denotes t fe /\ parse_cond (EvalRC.render toks) = Ok (flat (embed t))
+  end.
+Proof. exact reported_text_parses. Qed.
+Print Assumptions C07_text.
